@@ -160,17 +160,33 @@ def chain(ctx, rule):
     repo = ctx.repo
     # should_follow_href
     sm = repo.mod("should_follow_href")
-    r1 = repo.const(sm, "HTTP_PROTOCOL_RE")
     r2 = repo.const(repo.mod("patterns"), "HTTP_PROTOCOL_RE")
-    ctx.rx("ural.should_follow_href.HTTP_PROTOCOL_RE", "ural.patterns.HTTP_PROTOCOL_RE")
-    try:
-        A = Algebra()
-        a = A.regex(r1.pattern, r1.flags, "match")
-        b = A.regex(r2.pattern, r2.flags, "match")
-        w = A.equiv(a, b)
-        ctx.ob(rule, "should_follow_href/protocol-pattern-agrees-with-is_url", w is None, "should_follow_href and is_url disagree on what an http(s) protocol is: %r" % (w,), sm.site(repo.const_node(sm, "HTTP_PROTOCOL_RE")), witness=w and w[1])
-    except Unsupported as e:
-        ctx.undecided(rule, "HTTP_PROTOCOL_RE: %s" % e)
+    ctx.rx("ural.patterns.HTTP_PROTOCOL_RE")
+    # the pattern(s) should_follow_href applies (its own constant, the shared one, or one reached through a helper)
+    ex = P.Extractor(repo, atomic=set())
+    used = set()
+    for r in ex.function(sm.func("should_follow_href")):
+        for x in list(P.subterms(r.term)) + [y for c, _ in r.conds for y in P.subterms(c)]:
+            op = F.regex_op(x)
+            if op is not None and op[1] in ("match", "search", "fullmatch"):
+                used.add((op[0], op[1]))
+    for g, how in sorted(used):
+        modname, _, name = g.rpartition(".")
+        try:
+            r1 = repo.const(repo.mod(modname), name)
+        except (Unknown, AnalysisError):
+            continue
+        if not isinstance(r1, Regex):
+            continue
+        ctx.rx(g)
+        try:
+            A = Algebra()
+            a = A.regex(r1.pattern, r1.flags, "match" if how == "match" else how)
+            b = A.regex(r2.pattern, r2.flags, "match")
+            w = A.equiv(a, b)
+            ctx.ob(rule, "should_follow_href/protocol-pattern-agrees-with-is_url", w is None, "should_follow_href (%s.%s) and is_url disagree on what an http(s) protocol is: %r" % (name, how, w), sm.site(sm.func("should_follow_href").node), witness=w and w[1])
+        except Unsupported as e:
+            ctx.undecided(rule, "%s: %s" % (name, e))
     from ..microeval import run_function
     sref = sm.func("should_follow_href")
     ctx.fn(sref.qualname)
